@@ -241,6 +241,7 @@ func (w *Watcher) fetchEvents(ctx context.Context, logger *zap.Logger, client *C
 				unconfirmed, err := w.handleUnconfirmedEvents(ctx, logger, events)
 				if err != nil {
 					errC <- err
+					return
 				}
 				unconfirmedEvents = append(unconfirmedEvents, unconfirmed...)
 
@@ -262,8 +263,9 @@ func (w *Watcher) handleUnconfirmedEvents(ctx context.Context, logger *zap.Logge
 		contractEvent := event
 		unconfirmed, err := w.toUnconfirmedEvent(&contractEvent)
 		if err != nil {
-			logger.Error("failed to convert to unconfirmed event", zap.Error(err))
-			return nil, err
+			// a malformed or foreign event must not discard the other events of the page
+			logger.Error("ignore event that cannot be converted to unconfirmed event", zap.Error(err))
+			continue
 		}
 		if unconfirmed.msg.IsAttestTokenVAA() {
 			logger.Info("received a message", zap.String("txId", unconfirmed.TxId), zap.String("blockHash", unconfirmed.BlockHash), zap.String("type", "attest"))
